@@ -577,13 +577,23 @@ func sortable(vs []V) bool {
 	if len(vs) == 0 {
 		return true
 	}
-	// mutually comparable: one order type; or all numeric and exactly representable
+	// mutually comparable: one order type; or all numeric and exactly representable; or numeric with ints
+	// beyond 2^53 whose float64 image equals no float in the list (int/float comparison converts the int:
+	// rounding is monotone, so the verdict is the mathematical one unless the image coincides with the float)
 	allNum := true
 	for _, v := range vs {
 		if !isNumeric(v) {
 			allNum = false
 		} else if _, ok := exactNum(v); !ok {
-			allNum = false
+			if v.K == "float" {
+				allNum = false
+				continue
+			}
+			for _, w := range vs {
+				if w.K == "float" && (w.F == float64(v.I) || math.IsNaN(w.F)) {
+					allNum = false
+				}
+			}
 		}
 	}
 	if allNum {
@@ -960,9 +970,22 @@ func worker(kind string, data json.RawMessage) any {
 		for n := 0; n < c.N; n++ {
 			var vs []V
 			ln := r.Intn(51)
-			mode := r.Intn(8)
+			mode := r.Intn(9)
 			for i := 0; i < ln; i++ {
 				switch mode {
+				case 8: // ints beyond 2^53 (distinct ints with one float64 image) among a few small floats and bytes
+					switch r.Intn(5) {
+					case 0:
+						vs = append(vs, vi(int64(1<<53)+int64(r.Range(-3, 3))))
+					case 1:
+						vs = append(vs, vi(int64(math.MaxInt64)-int64(r.Intn(4))))
+					case 2:
+						vs = append(vs, vi(-(int64(1)<<62)-int64(r.Intn(3))))
+					case 3:
+						vs = append(vs, vf([]float64{1.5, -2.5, 0.5, 1e10, -1e300, 3}[r.Intn(6)]))
+					default:
+						vs = append(vs, vb(byte(r.Intn(4))))
+					}
 				case 0, 1: // mixed numerics, exactly representable
 					switch r.Intn(3) {
 					case 0:
